@@ -85,6 +85,32 @@ func tokenCreds(rng *rand.Rand, right, other string, all bool) []cred {
 	auth("empty-header", "", false, false)
 	auth("scheme-only-no-space", "Bearer", false, true)
 	bearer("empty-token", "")
+	auth("empty-token-scheme-lower", "bearer ", false, true)
+	auth("empty-token-scheme-upper", "BEARER ", false, true)
+	bearer("blank-token", " ")
+	// whatever the configured string is, it is ONE token: none of its comma/space/semicolon
+	// separated parts (trimmed or not), nor the string with a separator dropped or added, is it
+	for _, sep := range []string{",", " ", ";"} {
+		if !strings.Contains(right, sep) {
+			continue
+		}
+		name := map[string]string{",": "comma", " ": "space", ";": "semicolon"}[sep]
+		for _, part := range strings.Split(right, sep) {
+			if part != "" {
+				bearer("part-of-token-split-at-"+name, part)
+			}
+			if t := strings.TrimSpace(part); t != part && t != "" {
+				bearer("part-of-token-split-at-"+name+"-trimmed", t)
+			}
+		}
+		if i := strings.Index(right, sep); i >= 0 {
+			bearer("part-of-token-with-separator-"+name, right[:i+len(sep)])
+			bearer("part-of-token-with-separator-"+name, right[i:])
+		}
+		bearer("token-without-separators-"+name, strings.ReplaceAll(right, sep, ""))
+		bearer("token-trimmed-of-"+name, strings.Trim(right, sep+" "))
+	}
+	bearer("comma-only", ",")
 	if all {
 		for k := 1; k < n; k++ {
 			bearer("prefix", right[:k])
@@ -255,6 +281,49 @@ type tokGroup struct {
 	createN int
 	control bool            // control instance (empty tokens): requests are chosen to have no effect even when admitted
 	routed  map[string]bool // spelling name -> the server routes it to registered handlers (measured)
+	// noDump: the instance refuses its own configured tables token (reported as a violation by
+	// preflight), so the state cannot be read back; probes are then judged on the status alone
+	noDump bool
+}
+
+// dump reads the state back (or nothing in noDump mode).
+func (g *tokGroup) dump() (string, error) {
+	if g.noDump {
+		return "", nil
+	}
+	return dumpState(g.conn, g.spec.TablesToken, g.withRev)
+}
+
+// preflight: the exactly configured tokens must be admitted. If the instance refuses them the
+// monitor says so and carries on in a degraded mode instead of giving up as "not ready".
+func (g *tokGroup) preflight() {
+	lst := method{Service: "Tables", Name: "List", Full: pb.Tables_List_FullMethodName, Kind: "unary"}
+	rst := method{Service: "Maintenance", Name: "Reset", Full: pb.Maintenance_Reset_FullMethodName, Kind: "unary"}
+	for _, m := range []method{lst, rst} {
+		right, _ := g.tokenFor(m)
+		c := cred{Class: "right", MD: [][2]string{{"authorization", "Bearer " + right}}, Admit: true}
+		var o outcome
+		for attempt := 0; attempt < 20; attempt++ {
+			ctx, cancel := context.WithTimeout(context.Background(), 10*time.Second)
+			o = g.call(c.ctx(ctx), m, m.Full, "")
+			cancel()
+			if !o.transient() && o.Code != codes.FailedPrecondition {
+				break
+			}
+			time.Sleep(300 * time.Millisecond)
+		}
+		if o.refused() {
+			p := tokProbe{Method: m, Cred: c, Path: m.Full}
+			g.r.Violation(fmt.Sprintf("refused-right-token-%s-%s-right", g.flavour, m.short()),
+				fmt.Sprintf("%s %s called with exactly the configured token (%v) was refused: %s %q; maintenance.token=%q tables.token=%q",
+					g.flavour, m.short(), c.MD, o.CodeS, o.Msg, g.spec.MaintToken, g.spec.TablesToken),
+				g.witness(&p, &o, "admitted (any code but Unauthenticated)", ""))
+			if m.Service == "Tables" {
+				g.noDump = true
+				g.r.Count("groups_without_state_dumps_because_right_token_refused", 1)
+			}
+		}
+	}
 }
 
 func bearerCtx(ctx context.Context, tok string) context.Context {
@@ -692,14 +761,13 @@ func contains(l []string, x string) bool {
 // runProbes is the monitor proper.
 func (g *tokGroup) runProbes() {
 	r := g.r
-	ttok := g.spec.TablesToken
-	base, err := dumpState(g.conn, ttok, g.withRev)
+	base, err := g.dump()
 	if err != nil {
 		r.Inconclusive(g.id + ": initial dump failed: " + err.Error())
 		return
 	}
 	rebase := func() bool {
-		d, err := dumpState(g.conn, ttok, g.withRev)
+		d, err := g.dump()
 		if err != nil {
 			r.Inconclusive(g.id + ": dump failed: " + err.Error())
 			return false
@@ -736,7 +804,7 @@ func (g *tokGroup) runProbes() {
 			return
 		}
 		// preconditions that make an admitted call visible
-		if p.Method.Full == pb.Tables_Delete_FullMethodName && g.flavour == "leader" && !strings.Contains(base, fmt.Sprintf("table %q", tblVictim)) {
+		if !g.noDump && p.Method.Full == pb.Tables_Delete_FullMethodName && g.flavour == "leader" && !strings.Contains(base, fmt.Sprintf("table %q", tblVictim)) {
 			if err := g.ensureTable(tblVictim, 3); err != nil {
 				r.Inconclusive(g.id + ": cannot recreate victim table: " + err.Error())
 				return
@@ -804,7 +872,7 @@ func (g *tokGroup) runProbes() {
 			r.Violation("data-with-refusal-"+key, fmt.Sprintf("%s %s answered Unauthenticated after delivering data", g.flavour, p.Method.short()), g.witness(&p, &o, "no data", ""))
 		}
 		// effect check
-		after, err := dumpState(g.conn, ttok, g.withRev)
+		after, err := g.dump()
 		if err != nil {
 			r.Inconclusive(g.id + ": dump after probe failed: " + err.Error())
 			return
@@ -826,7 +894,7 @@ func (g *tokGroup) runProbes() {
 				r.Count("admitted_calls_with_visible_effect", 1)
 			}
 			// clean up what an admitted Create made, so the instance stays small
-			if p.Method.Full == pb.Tables_Create_FullMethodName && g.flavour == "leader" && o.Code == codes.OK {
+			if !g.noDump && p.Method.Full == pb.Tables_Create_FullMethodName && g.flavour == "leader" && o.Code == codes.OK {
 				if err := g.deleteTable(createName); err != nil {
 					r.Inconclusive(g.id + ": cleanup delete failed: " + err.Error())
 					return
@@ -835,7 +903,7 @@ func (g *tokGroup) runProbes() {
 			if g.flavour == "follower" && p.Method.Full == pb.Maintenance_Reset_FullMethodName && g.withRev {
 				g.withRev = false // follower re-replicates now; revisions are in flux from here on
 			}
-			if after, err = dumpState(g.conn, ttok, g.withRev); err != nil {
+			if after, err = g.dump(); err != nil {
 				r.Inconclusive(g.id + ": dump failed: " + err.Error())
 				return
 			}
